@@ -61,8 +61,19 @@ func VerifC09IngestRace() {
 	rm.LivenessTester = lt
 	rm.PhantomBlocklist, rm.phantomBlocklist = nil, nil
 	rm.EnableIPv4 = true
-	rm.registeredDecoys.registerForDetector = func(d *DecoyRegistration) { atomic.AddInt32(&newAnn, 1) }
-	rm.registeredDecoys.updateInDetector = func(d *DecoyRegistration) {}
+	// publishing to the detector is I/O (a round trip to redis): a scheduling point before the
+	// message is out, so that whatever the code lets other goroutines do meanwhile is explored
+	var updBeforeNew int32
+	rm.registeredDecoys.registerForDetector = func(d *DecoyRegistration) {
+		verifnd.Yield()
+		atomic.AddInt32(&newAnn, 1)
+	}
+	rm.registeredDecoys.updateInDetector = func(d *DecoyRegistration) {
+		verifnd.Yield()
+		if atomic.LoadInt32(&newAnn) == 0 {
+			atomic.StoreInt32(&updBeforeNew, 1)
+		}
+	}
 	verifnd.LoopBound("crypto/rand.Int", 2)
 	secret := verifSecret(0x61)
 	mk := func() *DecoyRegistration {
@@ -114,6 +125,7 @@ func VerifC09IngestRace() {
 	wg.Wait()
 	verifnd.Assert(atomic.LoadInt32(&newAnn) == 1, "C09.announced-as-new-exactly-once")
 	verifnd.Assert(atomic.LoadInt32(&sawUnannounced) == 0, "C09.lookup-sees-only-validated-and-announced")
+	verifnd.Assert(atomic.LoadInt32(&updBeforeNew) == 0, "C09.activation-never-announced-before-the-registration")
 	tracked := rm.registeredDecoys.registrationExists(r1)
 	verifnd.Assert(tracked != nil && tracked.Valid, "C09.registration-tracked-and-valid")
 	if tracked != nil {
